@@ -260,6 +260,8 @@ def run(tier):
             items.append((n, dict(gen_ctrl.make_program(b, "implicit"), share=True), "ctrl-loop-shared", ok, 2, {}))
     items.extend(degenerate_programs())
     items.extend(invalid_programs())
+    for size, prog, _inputs, lab in gen_ctrl.return_chains(4 if tier == "thorough" else 3):
+        items.append((size, prog, "return-chain", True, 2 if "/main" in lab else 4, {}))
     longs = long_programs(tier)
     rep.bounds["recipes"] = len(items) + len(longs)
     rep.bounds["max_nodes"] = {"full": full_n, "bare": bare_n, "loop": 4 if tier == "quick" else 5}
@@ -271,6 +273,10 @@ def run(tier):
     for sh in common.pmap_shards(_worker, longs, shard_size=1, order_seed=rep.seed,
                                  recursion_limit=sys.getrecursionlimit()):
         rep.merge(sh)
+    # a valid program must also be accepted when the OptimizeOptions object it is compiled with was used before
+    # (other program, other target version)
+    from . import c03
+    c03.shared_options_driver(rep, mode="accept")
     rep.counters["distinct_nontrivial"] = rep.counters.get("states", 0)
     rep.assumptions = ["validity of a recipe is decided syntactically (no unreachable statement, loops closed, typed by construction)"]
     if not rep.outcomes.get("TEAL"):
@@ -279,6 +285,9 @@ def run(tier):
 
 
 def replay(case):
+    if case.get("driver") == "shared-options":
+        from . import c03
+        return c03.replay_shared(case, "accept", PID)
     cfg = rb.Cfg.from_json(case["cfg"])
     recipe = case["recipe"]
     if isinstance(recipe.get("main"), dict) and "__gen__" in recipe["main"]:
